@@ -178,8 +178,14 @@ func famArith(quick bool, types []fl.TInt) []*prog.Case {
 					if (op == "/" || op == "%") && t.Signed && a.Cmp(t.Min()) == 0 && b.Cmp(big.NewInt(-1)) == 0 {
 						sub = "minneg1/" // min / -1 overflows: own sub-family
 					}
-					for _, cb := range combos {
+					for ci, cb := range combos {
 						prod, cons := cb[0], cb[1]
+						// quick: the 128/256-bit types (each operation is a runtime call on memory
+						// operands; their programs are the slowest to build) take the first
+						// combination of every producer and the comparing consumers only
+						if quick && t.Bits > 64 && !(ci == 0 || ci == 1 || ci == 3 || cons == "eq") {
+							continue
+						}
 						if cons == "widen" || cons == "print-cast" {
 							if _, ok := wider(t); !ok {
 								continue
@@ -400,8 +406,7 @@ func famImplicit(quick bool, types []fl.TInt) []*prog.Case {
 						p.Funcs = append(p.Funcs, &fl.Func{Name: "main", Body: body})
 						return p
 					})
-					c.Tag = "may-reject"
-					c.NoPack = true // a rejected case must not take its pack along
+					c.Tag = "may-reject" // observed after a front-end pre-pass (see Run)
 					out = append(out, c)
 				}
 			}
